@@ -29,7 +29,6 @@ Definition sx_perr (e : perr) : sx :=
                     | EOverflow => "OverflowError"
                     | EZeroDiv => "ZeroDivisionError"
                     | EAttr => "AttributeError"
-                    | EType => "TypeError"
                     | EUnmodelled => "unmodelled"
                     end)].
 
